@@ -2,6 +2,7 @@ package main
 
 import (
 	"go/token"
+	"go/types"
 	"strings"
 
 	"golang.org/x/tools/go/ssa"
@@ -11,10 +12,10 @@ const cfgPkg = "config"
 
 func init() {
 	register(&propCheck{
-		id:    "C15",
-		level: "other",
+		id:          "C15",
+		level:       "other",
 		explanation: "What viper, mapstructure and pflag do with a configuration structure at run time is not decided here. Decided are the structural facts of package config on which the stated precedence rests, on every path of the current sources: (U1) loading reports success only through Validate(): every return of LoadFromEnvironment that can carry a nil error follows the call of configurationToSet.Validate() and returns what WrapValidationError made of its result; Load and LoadFromViper only delegate; (U2) the sources are fed to the viper session in the order the precedence needs — the decoded defaults are merged first, the configuration file (when one is given) is merged after them and before the flags are linked to the structure keys, and all of it precedes Unmarshal: linkFlagKeysToStructureKeys forces the default value of an unset flag onto a structure key that is still empty, so a file merged after it loses to a mere default (genuine defect F30 of the pinned sources, repaired); (U3) in linkFlagKeysToStructureKeys an explicitly set flag is written with viper.Set (the override layer, above environment and file), and the default value of an unset flag is forced only where the structure key was found empty; (U4) the names reported by DetermineConfigurationEnvironmentVariables and the names the session honours are built with the same separator and case: SetEnvPrefix gets the caller's prefix, AutomaticEnv is on, the key replacer maps the configuration key separator to EnvVarSeparator, and the reporting side joins the upper-cased prefix and path elements with that same separator. Decided on SSA; nothing is executed. Not decided: viper's own precedence between its layers, mapstructure tag handling, what the Validate methods of user structures check (ValidateEmbedded walks them by reflection).",
-		run: runC15,
+		run:         runC15,
 		assumptions: []string{
 			"viper resolves a key in the order override (Set) > flag > environment > configuration (file and merged maps, later merges winning) > default, and AutomaticEnv looks up upper(prefix + \"_\" + replacer(key)) (library contract)",
 		},
@@ -25,6 +26,8 @@ func runC15(c *Ctx) {
 	c.rule("U1", "loading succeeds only through Validate(): every possibly-nil return of LoadFromEnvironment follows configurationToSet.Validate() and returns its (wrapped) result; Load/LoadFromViper delegate to it", 3)
 	c.rule("U2", "source order in LoadFromEnvironment: MergeConfigMap(defaults) → configuration file → linkFlagKeysToStructureKeys → Unmarshal → Validate", 4)
 	c.rule("U3", "linkFlagKeysToStructureKeys: a set flag is written with Set(); the default of an unset flag is forced only where the structure key is empty", 2)
+	c.rule("U6", "names with an empty prefix: prefix and separator are joined only where the prefix was found non-empty", 2)
+	c.rule("U7", "structure keys are linked to flag keys without prefix removal", 1)
 	c.rule("U5", "a prefix is tested and removed in the letter case of the string it is removed from", 2)
 	c.rule("U4", "environment variable names: SetEnvPrefix(prefix), AutomaticEnv, key replacer separator → EnvVarSeparator; the reporting side joins upper-cased elements with the same separator", 4)
 
@@ -46,7 +49,10 @@ func runC15(c *Ctx) {
 		}
 	}
 	local := func(name string) func(cl *ssa.Call) bool {
-		return func(cl *ssa.Call) bool { g := staticCallee(&cl.Call); return g != nil && g.Name() == name && inPkg(cfgPkg)(g) }
+		return func(cl *ssa.Call) bool {
+			g := staticCallee(&cl.Call)
+			return g != nil && g.Name() == name && inPkg(cfgPkg)(g)
+		}
 	}
 	merge := find(load, method("MergeConfigMap"))
 	file := find(load, local("LoadFromConfigurationFile"))
@@ -71,7 +77,9 @@ func runC15(c *Ctx) {
 			if !ok || !dominates(val, r) {
 				return
 			}
-			for _, l := range sources(r.Results[len(r.Results)-1], deriveOpts{through: func(n string) bool { return strings.Contains(n, "WrapValidationError") || strings.Contains(n, "WrapFieldValidationError") }}) {
+			for _, l := range sources(r.Results[len(r.Results)-1], deriveOpts{through: func(n string) bool {
+				return strings.Contains(n, "WrapValidationError") || strings.Contains(n, "WrapFieldValidationError")
+			}}) {
 				if l == ssa.Value(val) {
 					flows = true
 				}
@@ -231,6 +239,13 @@ func runC15(c *Ctx) {
 					if mid != envSep {
 						agree = false
 					}
+				} else if isC && strings.Trim(format, "%vs") == "" && len(cl.Call.Args) > 1 {
+					// only verbs: the separator is one of the operands
+					for _, e := range variadicElems(cl.Call.Args[1]) {
+						if k, isK := constString(stripConv(e)); isK && k != envSep {
+							agree = false
+						}
+					}
 				}
 			case "strings.ToUpper":
 				upper++
@@ -240,6 +255,68 @@ func runC15(c *Ctx) {
 	c.check(sepOK && agree && upper >= 3, "U4", "config/reported-names", c.pos(det.Pos()), "prefix and path elements upper-cased and joined with "+strconvQuote(envSep)+", the separator the session's replacer produces",
 		"the names reported by DetermineConfigurationEnvironmentVariables are not built the way the session looks variables up (separator "+strconvQuote(envSep)+", upper case): they are not the names that loading honours")
 	_ = token.NoPos
+
+	// ---- U6 -----------------------------------------------------------------
+	// Viper puts the separator after the prefix only when there is a prefix (mergeWithEnvPrefix). The reporting side and the
+	// names flags are bound to do the same: wherever prefix and separator are joined, the prefix was found non-empty.
+	nJoin := 0
+	for _, name := range []string{"DetermineConfigurationEnvironmentVariables", "cleanseEnvVar"} {
+		f := c.fn(cfgPkg, name)
+		if f == nil {
+			continue
+		}
+		c.FuncsSeen[fname(f)] = true
+		var prefix *ssa.Parameter
+		for _, p := range f.Params {
+			if bt, isB := p.Type().Underlying().(*types.Basic); isB && bt.Kind() == types.String && (strings.Contains(strings.ToLower(p.Name()), "prefix") || strings.Contains(strings.ToLower(p.Name()), "appname")) {
+				prefix = p
+			}
+		}
+		if prefix == nil {
+			c.violate("U6", fname(f)+"/prefix-then-separator", c.pos(f.Pos()), "no prefix parameter found in "+name)
+			continue
+		}
+		allInstrs(f, func(in ssa.Instruction) {
+			cl, ok := in.(*ssa.Call)
+			if !ok || calleeFull(&cl.Call) != "fmt.Sprintf" || len(cl.Call.Args) < 2 {
+				return
+			}
+			uses := false
+			for _, e := range variadicElems(cl.Call.Args[1]) {
+				for _, l := range sources(e, deriveOpts{through: func(n string) bool { return strings.HasPrefix(n, "strings.") }}) {
+					if l == ssa.Value(prefix) {
+						uses = true
+					}
+				}
+			}
+			if !uses {
+				return
+			}
+			nJoin++
+			nonEmpty := onBoolSide(cl, false, func(v ssa.Value) bool { return c15EmptyTest(v, prefix, token.EQL) }) ||
+				onBoolSide(cl, true, func(v ssa.Value) bool { return c15EmptyTest(v, prefix, token.NEQ) || c15EmptyTest(v, prefix, token.GTR) })
+			c.check(nonEmpty, "U6", fname(f)+"/prefix-then-separator", c.ipos(cl), "prefix and separator joined only where the prefix is not empty",
+				"prefix and separator are joined although the prefix may be empty: the name starts with the separator (\"_APPLICATION\") whereas loading with an empty prefix honours the bare name (\"APPLICATION\") — the names reported, and the variables flags are bound to, are not the names honoured")
+		})
+	}
+	c.Extra["prefix_joins"] = nJoin
+
+	// ---- U7 -----------------------------------------------------------------
+	// Structure keys never bear the prefix: linking them to the flag keys does not go through prefix removal.
+	{
+		bad := ""
+		allInstrs(lk, func(in ssa.Instruction) {
+			cl, ok := in.(*ssa.Call)
+			if !ok {
+				return
+			}
+			if g := staticCallee(&cl.Call); g != nil && inPkg(cfgPkg)(g) && c15RemovesPrefix(g, 3) {
+				bad = c.ipos(cl) + " (" + g.Name() + ")"
+			}
+		})
+		c.check(bad == "", "U7", fname(lk)+"/structure-keys-as-they-are", c.pos(lk.Pos()), "the flag key of a structure key is computed without prefix removal",
+			"the flag key of a structure key is computed through prefix removal at "+bad+": a key that merely starts like the prefix (prefix \"app\", key \"application\" or \"app_name\") is linked to another flag key than the one BindFlagToEnv registers, and the explicitly set flag is ignored")
+	}
 
 	// ---- U5 -----------------------------------------------------------------
 	// Prefix handling of the key/variable names: wherever a (non-constant) prefix is tested or removed, the string and the
@@ -270,6 +347,50 @@ func runC15(c *Ctx) {
 	c.Extra["prefix_operations"] = nPfx
 }
 
+// c15EmptyTest: v is `p == ""` / `p != ""` (op), or the same on len(p) and 0.
+func c15EmptyTest(v ssa.Value, p *ssa.Parameter, op token.Token) bool {
+	b, ok := v.(*ssa.BinOp)
+	if !ok || b.Op != op {
+		return false
+	}
+	for _, pair := range [][2]ssa.Value{{b.X, b.Y}, {b.Y, b.X}} {
+		if ks, isK := constString(pair[1]); isK && ks == "" && resolveValue(pair[0]) == ssa.Value(p) && op != token.GTR {
+			return true
+		}
+		if op == token.GTR && pair[0] != b.X {
+			continue // 0 > len(p) is no emptiness test
+		}
+		if k, isK := constInt(pair[1]); isK && k == 0 {
+			if cl, isCall := pair[0].(*ssa.Call); isCall && calleeFull(&cl.Call) == "builtin.len" && resolveValue(cl.Call.Args[0]) == ssa.Value(p) {
+				return true
+			}
+		}
+	}
+	return false
+}
+
+// c15RemovesPrefix: g (or a function of the package it calls, to the given depth) removes a non-constant prefix.
+func c15RemovesPrefix(g *ssa.Function, depth int) bool {
+	found := false
+	allInstrs(g, func(in ssa.Instruction) {
+		cl, ok := in.(*ssa.Call)
+		if !ok || found {
+			return
+		}
+		switch calleeFull(&cl.Call) {
+		case "strings.TrimPrefix", "strings.CutPrefix":
+			if _, isK := constString(cl.Call.Args[1]); !isK {
+				found = true
+			}
+			return
+		}
+		if h := staticCallee(&cl.Call); h != nil && h != g && depth > 0 && inPkg(cfgPkg)(h) && c15RemovesPrefix(h, depth-1) {
+			found = true
+		}
+	})
+	return found
+}
+
 // c15CaseOf classifies the letter case a string value is known to be in: "lower", "upper", "const", "as given" or "mixed".
 func c15CaseOf(v ssa.Value, depth int) string {
 	if depth > 8 {
@@ -287,6 +408,20 @@ func c15CaseOf(v ssa.Value, depth int) string {
 			return "upper"
 		case "strings.TrimPrefix", "strings.TrimSuffix", "strings.TrimSpace", "strings.Trim":
 			return c15CaseOf(x.Call.Args[0], depth+1)
+		}
+	case *ssa.BinOp:
+		if x.Op == token.ADD {
+			a, b := c15CaseOf(x.X, depth+1), c15CaseOf(x.Y, depth+1)
+			if ks, isK := constString(x.Y); isK && strings.ToLower(ks) == strings.ToUpper(ks) {
+				return a // a suffix without letters
+			}
+			if ks, isK := constString(x.X); isK && strings.ToLower(ks) == strings.ToUpper(ks) {
+				return b
+			}
+			if a == b {
+				return a
+			}
+			return "mixed"
 		}
 	case *ssa.Phi:
 		r := ""
